@@ -1,8 +1,200 @@
 import Karp.Driver.Proto
+import Karp.Model.OrchQueue
+import Karp.Spec.OrchQueue
 
 namespace Karp.Driver.C08
-open Lean Karp.Driver
+open Lean Karp.Driver Karp.OrchQueue Karp.Spec.OrchQueue
 
-def handle : Handler := fun op _ _ => .error s!"unknown op {op}"
+/-! ## JSON → model input -/
+
+def parseKey (s : String) : Except String Key :=
+  match s.splitOn "." with
+  | ["get", "node", i] => pure (.getNode i.toNat!)
+  | ["patch", "node", i] => pure (.patchNode i.toNat!)
+  | ["get", "nc", i] => pure (.getNC i.toNat!)
+  | ["status", "nc", i] => pure (.statusNC i.toNat!)
+  | ["del", "nc", i] => pure (.delNC i.toNat!)
+  | ["get", "pool", i] => pure (.getPool i.toNat!)
+  | ["create", "repl", k, i] => pure (.createRepl k.toNat! i.toNat!)
+  | ["get", "repl", k, i] => pure (.getRepl k.toNat! i.toNat!)
+  | _ => .error s!"bad fault key {s}"
+
+def parseFault (j : Json) : Except String Fault := do
+  let key ← parseKey (← strF j "key")
+  let cls ← strF j "class"
+  pure { key := key, start := ← natF j "from", count := ← natF j "count", notFound := cls == "notfound" }
+
+def parseStep (j : Json) : Except String Step := do
+  let op ← strF j "op"
+  let k := (← natO j "cmd").getD 0
+  let i := (← natO j "repl").getD 0
+  match op with
+  | "start" => pure (.start k (← boolD j "via" false))
+  | "reconcile" => pure (.reconcile k ((← natO j "on").getD 0))
+  | "advance" => pure (.advance ((← intO j "ns").getD 0))
+  | "launch" => pure (.env .launch k i)
+  | "init" => pure (.env .init k i)
+  | "vanish" => pure (.env .vanish k i)
+  | "vanishStale" => pure (.env .vanishStale k i)
+  | "sync" => pure .sync
+  | "restart" => pure .restart
+  | "cleanup" => pure .cleanup
+  | _ => .error s!"bad step op {op}"
+
+structure Input where
+  ncands : Nat
+  cmds : List (List Nat × Nat)
+  steps : List Step
+  world : World
+
+def parseInput (inp : Json) : Except String Input := do
+  let ncands ← natF inp "ncands"
+  let cmds ← (← arrF inp "cmds").mapM (fun c => do
+    let cs ← natList (← fld c "cands")
+    if cs.eraseDups.length != cs.length then throw "duplicate candidate in a command"
+    pure (cs, ← natF c "repls"))
+  let steps ← (← arrF inp "steps").mapM parseStep
+  let faults ← (← arrD inp "faults").mapM parseFault
+  let missing ← match fldOpt inp "missingPools" with | none => pure [] | some m => natList m
+  let retrySteps ← natF inp "retrySteps"
+  let mode := TimeoutMode.ofCode Karp.Gen.OrchQueue.timeoutMode
+  pure { ncands := ncands, cmds := cmds, steps := steps,
+         world := initWorld ncands cmds faults missing retrySteps mode }
+
+/-! ## model output → JSON (the harness' canonical form) -/
+
+def resStr : Res → String
+  | .ok => "ok" | .skip => "skip" | .noop => "noop"
+  | .notcand => "notcand" | .busy => "busy" | .mark => "mark" | .launch => "launch"
+  | .nocmd => "nocmd" | .requeue => "requeue" | .succeeded => "succeeded" | .failed => "failed"
+  | .unsynced => "unsynced" | .fail => "fail"
+
+def apiStr : RApi → String
+  | .absent => "absent" | .pending => "pending" | .launched => "launched" | .init => "init"
+
+/-- stable insertion sort of the Delete events by candidate (the harness sorts the same way) -/
+def insertEv (e : DelEvent) : List DelEvent → List DelEvent
+  | [] => [e]
+  | x :: xs => if e.cand < x.cand then e :: x :: xs else x :: insertEv e xs
+
+def sortEvs (l : List DelEvent) : List DelEvent := l.foldl (fun acc e => insertEv e acc) []
+
+def candJson (c : Cand) : Json :=
+  jObj [("taint", jBool c.taint), ("cond", jBool c.cond), ("deleting", jBool c.deleting), ("mark", jBool (markObs c)),
+        ("owner", match c.owner with | none => jInt (-1) | some k => jNat k)]
+
+def replJson (r : Repl) : Json :=
+  jObj [("named", jBool r.named), ("latched", jBool r.latched), ("api", jStr (apiStr r.api)),
+        ("known", jBool (r.created && r.known))]
+
+def cmdJson (c : Cmd) : Json :=
+  jObj [("started", jBool c.started), ("succeeded", jBool c.succeeded), ("repls", jArr (c.repls.map replJson))]
+
+def stepJson (r : Res) (evs : List DelEvent) (w : World) : Json :=
+  jObj [("res", jStr (resStr r)), ("nf", jNat w.fired),
+        ("deletes", jArr ((sortEvs evs).map (fun e =>
+          jObj [("cand", jNat e.cand), ("repls", jArr (e.repls.map (fun a => jStr (apiStr a)))), ("ok", jBool e.ok)]))),
+        ("cands", jArr (w.cands.map candJson)), ("cmds", jArr (w.cmds.map cmdJson))]
+
+/-! ## implementation output → observations for the specification -/
+
+def verdictOf (s : String) : Verdict :=
+  match s with
+  | "ok" => .none | "skip" => .none | "noop" => .none
+  | "notcand" => .startRejected | "busy" => .startRejected | "mark" => .startRejected | "launch" => .startRejected
+  | "nocmd" => .nocmd | "requeue" => .requeue | "succeeded" => .succeeded | "failed" => .failed
+  | "unsynced" => .cleanupNotRun | "fail" => .cleanupNotRun
+  | _ => .none
+
+def kindOf (cmds : List (List Nat × Nat)) : Step → Kind
+  | .start k _ => .start k
+  | .reconcile k on =>
+    let cs := ((cmds[k]?).map (·.1)).getD []
+    .reconcile ((cs[on]?).getD (cs.headD 0))
+  | .advance ns => .advance ns
+  | .restart => .restart
+  | .cleanup => .cleanup
+  | _ => .other
+
+def parseObs (cmds : List (List Nat × Nat)) (s : Step) (j : Json) : Except String (Obs × List (List Bool)) := do
+  let res ← strF j "res"
+  let kind := kindOf cmds s
+  let verdict : Verdict :=
+    match kind, res with
+    | .start _, "ok" => .startOk
+    | .cleanup, "ok" => .cleanupOk
+    | _, _ => verdictOf res
+  let deletes ← (← arrF j "deletes").mapM (fun d => do
+    let rs ← strList (← fld d "repls")
+    pure ({ cand := ← natF d "cand", ready := rs.map (· == "init") } : ObsDelete))
+  let cands ← (← arrF j "cands").mapM (fun c => do
+    let ow ← intF c "owner"
+    pure ({ taint := ← boolF c "taint", cond := ← boolF c "cond", deleting := ← boolF c "deleting",
+            mark := ← boolF c "mark", owner := if ow < 0 then none else some ow.toNat } : ObsCand))
+  let latched ← (← arrF j "cmds").mapM (fun c => do
+    (← arrF c "repls").mapM (fun r => boolF r "latched"))
+  pure ({ kind := kind, verdict := verdict, faults := ← natF j "nf", deletes := deletes, cands := cands }, latched)
+
+/-- refine the class of a violation into the signature used for known-finding matching -/
+def signatureOf (sc : Scenario) (cls : String) (t : Track) (o : Obs) (latchedBefore : List (List Bool)) : String :=
+  match cls with
+  | "delete-before-ready" =>
+    -- the one recorded class: the Delete is issued by the owning action's pass with every replacement created, and the
+    -- replacements that are not Initialized at that instant are exactly ones whose readiness was latched by an earlier
+    -- pass and which vanished afterwards
+    match actingFor t o.kind with
+    | none => cls
+    | some K =>
+      let lat := (latchedBefore[K]?).getD []
+      let explained := o.deletes.all (fun d =>
+        (candOf t.prev d.cand).owner == some K && d.ready.length == sc.replsOf K &&
+          (List.range d.ready.length).all (fun i => (d.ready[i]?).getD false || (lat[i]?).getD false))
+      if explained then "delete-after-latched-replacement-vanished" else cls
+  | "failed-after-delete" =>
+    match actingFor t o.kind with
+    | none => cls
+    | some K =>
+      match startedAtOf t K with
+      | some t0 => if t.now - t0 > (Karp.Gen.OrchQueue.minRetryDurationNs : Int) then "failed-after-delete:retry-window-passed" else cls
+      | none => cls
+  | _ => cls
+
+def protocol (inp impl : Json) : Except String Resp := do
+  let input ← parseInput inp
+  let tr := trace input.world input.steps
+  let model := jObj [("steps", jArr (tr.map (fun (r, evs, w) => stepJson r evs w)))]
+  let sc : Scenario := { ncands := input.ncands, cmds := input.cmds }
+  match fldOpt impl "steps" with
+  | none => pure { model := some model, spec := some false, why := "implementation produced no trace (panic or harness error)" }
+  | some st => do
+    let js ← asArr st
+    if js.length != input.steps.length then
+      return { model := some model, spec := some false, why := "implementation trace has the wrong length" }
+    let parsed ← (input.steps.zip js).mapM (fun (s, j) => parseObs input.cmds s j)
+    let obs := parsed.map (·.1)
+    match check sc obs with
+    | none => pure { model := some model, spec := some true }
+    | some (i, cls, t) =>
+      let latchedBefore : List (List Bool) := if i = 0 then [] else ((parsed[i - 1]?).map (·.2)).getD []
+      let sig := match obs[i]? with
+        | some o => signatureOf sc cls t o latchedBefore
+        | none => cls
+      pure { model := some model, spec := some false,
+             why := s!"step {i}: {sig}",
+             extra := some (jObj [("signature", jStr sig), ("step", jNat i)]) }
+
+/-! ## leaf op: `Queue.GetMaxRetryDuration` -/
+
+def retryDur (inp _impl : Json) : Except String Resp := do
+  let n ← natF inp "entries"
+  pure { model := some (jObj [("ns", jInt (retryDuration n))]) }
+
+def handle : Handler := fun op inp impl =>
+  match op with
+  | "c08.protocol" => protocol inp impl
+  | "c08.faults" => protocol inp impl
+  | "c08.findings" => protocol inp impl
+  | "c08.retry" => retryDur inp impl
+  | _ => .error s!"unknown op {op}"
 
 end Karp.Driver.C08
